@@ -95,8 +95,13 @@ def run(P: Program, R: Report, tier: str) -> None:
             mono = True
         else:
             val = s.value
-            if isinstance(val, ast.Call) and call_name(val) in ("max", "maximum") and any(isinstance(a, ast.Name) and a.id == v for a in val.args):
-                mono = True
+            for sub in ast.walk(val):
+                if isinstance(sub, ast.Call) and call_name(sub) in ("max", "maximum") and any(isinstance(a, ast.Name) and a.id == v for a in sub.args):
+                    # only value-preserving wrappers (int(), float()) around the maximum
+                    outer = val
+                    while isinstance(outer, ast.Call) and outer is not sub and call_name(outer) in ("int", "float") and len(outer.args) == 1:
+                        outer = outer.args[0]
+                    mono = mono or outer is sub
             if isinstance(val, ast.BinOp) and isinstance(val.op, ast.Add) and any(isinstance(x, ast.Name) and x.id == v for x in (val.left, val.right)):
                 mono = True
             if isinstance(val, ast.IfExp) and any(isinstance(x, ast.Name) and x.id == v for x in (val.body, val.orelse)):
